@@ -152,6 +152,9 @@ func (c Constraint) ToConstraint() Constraint { return c }
 
 // Validate validates the constraint.
 func (c Constraint) Validate() error {
+	if len(c) == 0 {
+		return errors.New("empty constraint")
+	}
 	for _, o := range c {
 		if err := o.Validate(); err != nil {
 			return err
@@ -207,6 +210,9 @@ func (o Option) ToOption() Option { return o }
 
 // Validate validates o.
 func (o Option) Validate() error {
+	if len(o) == 0 {
+		return errors.New("empty option")
+	}
 	for _, t := range o {
 		if err := t.Validate(); err != nil {
 			return fmt.Errorf("invalid term %q: %w", t, err)
